@@ -14,8 +14,10 @@ import StorageModel.C03.LayeredReject
   StorageModel/C03/Layered.lean, which puts a plain CHILD store on top of the indexed store
   (creates through the child store — also over an existing plain parent entity —, updates through
   either store, deletes through either store with the parent's `ProcessBeforeDelete` running once
-  per store that holds the entity) and a SCHEMA giving every field a symbol name, a stored key and
-  a caller-side (FieldChecker) name; patches name fields by the caller-side name.
+  per store that holds the entity) and a SCHEMA: the store's base path (any number of elements;
+  entities under `<basePath>/things`, index buckets under `<basePath>/indexes/things/<symbol>`),
+  for every field a symbol name, a stored key and a caller-side (FieldChecker) name (patches name
+  fields by the caller-side name), and which of the three indexes are registered, in which order.
   Spec:  StorageModel/C03/LayeredSpec.lean over StorageModel/C03/Spec.lean (entity table only,
   indexes derived).
   All theorems quantify over every schema / state / operation / finite history of transactions.
@@ -25,40 +27,65 @@ open StorageModel StorageModel.C03.Layered
 open StorageModel.C03 (Map Id Ent Vals Err Line bAlias bRoles)
 
 /-- the invariant holds for the freshly initialised database -/
-theorem inv_init : Inv State.empty := inv_empty
+theorem inv_init (sch : Schema) : Inv sch State.empty := inv_empty sch
 
 /-- every operation kind through either store, accepted or rejected, run in its own transaction,
     preserves it -/
-theorem inv_step (sch : Schema) {s : State} (op : Op) (h : Inv s) : Inv (step sch s op).1 := inv_txStep [op] h
+theorem inv_step (sch : Schema) {s : State} (op : Op) (h : Inv sch s) : Inv sch (step sch s op).1 := inv_txStep [op] h
 
 /-- so does every transaction of several operations (committed, or rolled back at the first error) -/
-theorem inv_tx (sch : Schema) {s : State} (ops : List Op) (h : Inv s) : Inv (txStep sch s ops).1 := inv_txStep ops h
+theorem inv_tx (sch : Schema) {s : State} (ops : List Op) (h : Inv sch s) : Inv sch (txStep sch s ops).1 := inv_txStep ops h
 
 /-- **all finite histories**: the invariant holds after any sequence of transactions -/
-theorem inv_reachable (sch : Schema) (txs : List (List Op)) : Inv (run sch txs) := by
+theorem inv_reachable (sch : Schema) (txs : List (List Op)) : Inv sch (run sch txs) := by
   unfold run
-  suffices ∀ s, C03.Layered.Inv s → C03.Layered.Inv (txs.foldl (fun s ops => (txStep sch s ops).1) s) from this _ inv_init
+  suffices ∀ s, C03.Layered.Inv sch s → C03.Layered.Inv sch (txs.foldl (fun s ops => (txStep sch s ops).1) s) from this _ (inv_init sch)
   induction txs with
   | nil => intro s h; exact h
   | cons ops rest ih => intro s h; exact ih _ (inv_tx sch ops h)
 
-/-- unique index = image of the entity table, in every reachable state (non-nullable `name`) -/
+/-- unique index = image of the entity table, in every reachable state (non-nullable `name`; an
+    index that is not registered sees no value and stays empty: `Spec.vName`) -/
 theorem unique_index_exact (sch : Schema) (txs : List (List Op)) (v : Bytes) (id : Id) :
     (run sch txs).base.uName.lookup v = some id ↔
-      (v ≠ [] ∧ ∃ e, (run sch txs).base.ents.lookup id = some e ∧ e.name = v) :=
+      (v ≠ [] ∧ ∃ e, (run sch txs).base.ents.lookup id = some e ∧ Spec.vName sch e = v) :=
   (inv_reachable sch txs).base.uName v id
 
 /-- the same for the nullable index on `alias` (nil and empty are not indexed) -/
 theorem nullable_unique_index_exact (sch : Schema) (txs : List (List Op)) (v : Bytes) (id : Id) :
     (run sch txs).base.uAlias.lookup v = some id ↔
-      (v ≠ [] ∧ ∃ e, (run sch txs).base.ents.lookup id = some e ∧ e.alias.getD [] = v) :=
+      (v ≠ [] ∧ ∃ e, (run sch txs).base.ents.lookup id = some e ∧ Spec.vAlias sch e = v) :=
   (inv_reachable sch txs).base.uAlias v id
 
 /-- set index = exactly the entities whose set field contains the value, in every reachable state -/
 theorem set_index_exact (sch : Schema) (txs : List (List Op)) (v : Bytes) (id : Id) :
     id ∈ ((run sch txs).base.sRoles.lookup v).getD [] ↔
-      ∃ e, (run sch txs).base.ents.lookup id = some e ∧ v ∈ e.roles :=
+      ∃ e, (run sch txs).base.ents.lookup id = some e ∧ v ∈ Spec.vRoles sch e :=
   (inv_reachable sch txs).base.sRoles v id
+
+/-- … in the registered case these are the fields themselves -/
+theorem registered_values (sch : Schema) (e : Ent) :
+    (sch.regName = true → Spec.vName sch e = e.name) ∧ (sch.regAlias = true → Spec.vAlias sch e = e.alias.getD []) ∧
+    (sch.regRoles = true → Spec.vRoles sch e = e.roles) := by
+  refine ⟨?_, ?_, ?_⟩ <;> intro h <;> simp [Spec.vName, Spec.vAlias, Spec.vRoles, h]
+
+/-- **the path function**: distinct symbols have distinct index buckets, for every base path -/
+theorem index_paths_distinct (sch : Schema) (a b : Bytes) (h : a ≠ b) : idxPath sch a ≠ idxPath sch b :=
+  fun he => h (idxPath_injective sch a b he)
+
+/-- so the three index buckets of a schema with pairwise distinct symbol names are pairwise distinct … -/
+theorem schema_index_paths_distinct (sch : Schema) (h1 : sch.name.sym ≠ sch.alias.sym) (h2 : sch.name.sym ≠ sch.roles.sym)
+    (h3 : sch.alias.sym ≠ sch.roles.sym) :
+    idxPath sch sch.name.sym ≠ idxPath sch sch.alias.sym ∧ idxPath sch sch.name.sym ≠ idxPath sch sch.roles.sym ∧
+    idxPath sch sch.alias.sym ≠ idxPath sch sch.roles.sym :=
+  ⟨index_paths_distinct sch _ _ h1, index_paths_distinct sch _ _ h2, index_paths_distinct sch _ _ h3⟩
+
+/-- … and nothing at or below an index bucket is at or below an entity bucket -/
+theorem index_paths_off_entities (sch : Schema) (sym : Bytes) (p : List Bytes) (id : Id) (q : List Bytes) :
+    idxPath sch sym ++ p ≠ entPath sch id ++ q := by
+  unfold idxPath entPath
+  simp only [List.append_assoc, List.cons_append, List.nil_append]
+  exact idx_side_ne_ent_side sch _ _
 
 /-- no empty index keys are left behind -/
 theorem no_empty_keys (sch : Schema) (txs : List (List Op)) (v : Bytes) (ids : List Id)
@@ -71,29 +98,30 @@ theorem child_data_inside_entity (sch : Schema) (txs : List (List Op)) (id : Id)
   (inv_reachable sch txs).extIn id t h
 
 /-- "exactly the one entity": an entity is found under one value only … -/
-theorem uniq_injective {s : State} (hi : Inv s) {v v' : Bytes} {a : Id}
+theorem uniq_injective {sch : Schema} {s : State} (hi : Inv sch s) {v v' : Bytes} {a : Id}
     (h : s.base.uName.lookup v = some a) (h' : s.base.uName.lookup v' = some a) : v = v' := by
   obtain ⟨_, e, he, rfl⟩ := (hi.base.uName v a).1 h
   obtain ⟨_, e', he', rfl⟩ := (hi.base.uName v' a).1 h'
   rw [he] at he'; cases he'; rfl
 
-/-- … and two entities never hold the same (non-empty) unique value -/
-theorem unique_holder {s : State} (hi : Inv s) {a b : Id} {e e' : Ent}
+/-- … and (the unique index on `name` registered) two entities never hold the same unique value -/
+theorem unique_holder {sch : Schema} {s : State} (hi : Inv sch s) (hreg : sch.regName = true) {a b : Id} {e e' : Ent}
     (ha : s.base.ents.lookup a = some e) (hb : s.base.ents.lookup b = some e') (h : e.name = e'.name) : a = b := by
-  have hne := hi.base.namesNonEmpty a e ha
-  have h1 := (hi.base.uName e.name a).2 ⟨hne, e, ha, rfl⟩
-  have h2 := (hi.base.uName e.name b).2 ⟨hne, e', hb, h.symm⟩
+  have hne := hi.base.namesNonEmpty hreg a e ha
+  have hv : ∀ x : Ent, Spec.vName sch x = x.name := fun x => by simp [Spec.vName, hreg]
+  have h1 := (hi.base.uName e.name a).2 ⟨hne, e, ha, hv e⟩
+  have h2 := (hi.base.uName e.name b).2 ⟨hne, e', hb, (hv e').trans h.symm⟩
   rw [h1] at h2; cases h2; rfl
 
-/-- a write — through either store — that would give two entities the same unique value fails with
-    the duplicate error and changes nothing -/
-theorem dup_rejected {sch : Schema} {s : State} {op : Op} (hi : Inv s) (hw : WouldDuplicate sch s op) :
+/-- a write — through either store — whose one fault is to give two entities the same unique value
+    fails with the duplicate error and changes nothing -/
+theorem dup_rejected {sch : Schema} {s : State} {op : Op} (hi : Inv sch s) (hw : WouldDuplicate sch s op) :
     step sch s op = (s, .err .dup) := by
   simp [step, txStep, applyOps, stepRaw_dup hi hw]
 
-/-- an empty value for the non-nullable unique index fails with the null-not-allowed error and
-    changes nothing -/
-theorem empty_rejected {sch : Schema} {s : State} {op : Op} (hi : Inv s) (hw : WouldBeEmpty sch s op) :
+/-- a write whose one fault is an empty value for the (registered) non-nullable unique index fails
+    with the null-not-allowed error and changes nothing -/
+theorem empty_rejected {sch : Schema} {s : State} {op : Op} (hi : Inv sch s) (hw : WouldBeEmpty sch s op) :
     step sch s op = (s, .err .nullNotAllowed) := by
   simp [step, txStep, applyOps, stepRaw_empty hi hw]
 
@@ -107,10 +135,11 @@ theorem error_changes_nothing (sch : Schema) (s : State) (ops : List Op) (h : (t
   · rfl
 
 /-- **refinement**: on a consistent state the engine model and the spec (entity table and child
-    data only; refuse exactly the writes that would break a constraint against the other entities)
-    agree on every operation through either store — both succeed with the same entity table, or
-    both fail and the engine's error is among those the spec allows -/
-theorem step_refines_spec {sch : Schema} {s : State} (hi : Inv s) (op : Op) :
+    data only; refuse exactly the writes that would break a constraint of a registered index against
+    the other entities) agree on every operation through either store, whatever the registration
+    order — both succeed with the same entity table, or both fail and the engine's error is among
+    those the spec allows (so with several faults ANY registration order reports one of them) -/
+theorem step_refines_spec {sch : Schema} {s : State} (hi : Inv sch s) (op : Op) :
     match stepRaw sch s op, Spec.step sch (abs s) op with
     | .ok s', .ok t' => abs s' = t'
     | .error e, .error es => e ∈ es
@@ -118,37 +147,46 @@ theorem step_refines_spec {sch : Schema} {s : State} (hi : Inv s) (op : Op) :
   stepRaw_refines hi op
 
 /-- the bucket dump of a consistent state is the dump derived from the entity table alone -/
-theorem render_eq_spec {sch : Schema} {s : State} (hi : Inv s) (l : Line) :
+theorem render_eq_spec {sch : Schema} {s : State} (hi : Inv sch s) (l : Line) :
     l ∈ Render sch s ↔ l ∈ Spec.render sch (abs s) :=
   render_eq_spec_lines hi l
 
 /-- the nil dereference in `setIndex.ProcessAfterUpdate/ProcessBeforeDelete` (an empty old value)
     is unreachable from consistent states -/
-theorem no_panic {sch : Schema} {s : State} (hi : Inv s) (op : Op) : stepRaw sch s op ≠ .error .panic :=
+theorem no_panic {sch : Schema} {s : State} (hi : Inv sch s) (op : Op) : stepRaw sch s op ≠ .error .panic :=
   stepRaw_no_panic hi
 
 /-! ### non-vacuity -/
 
 def exA : Vals := ⟨[120], some [121], [[114], [115]]⟩
 def exB : Vals := ⟨[121], none, [[114]]⟩
-/-- a schema in which symbol name, stored key and caller-side name of `name` all differ -/
-def exSch : Schema := ⟨⟨[110], [107], [100]⟩, ⟨bAlias, bAlias, [113]⟩, ⟨bRoles, bRoles, [97, 116]⟩, bTag, bTag⟩
+/-- a schema with a three-element base path, in which symbol name, stored key and caller-side name of
+    `name` all differ, all three indexes registered in the order roles, alias, name -/
+def exSch : Schema :=
+  ⟨[[112], [113], [114]], ⟨[110], [107], [100]⟩, ⟨bAlias, bAlias, [113]⟩, ⟨bRoles, bRoles, [97, 116]⟩, bTag, bTag, true, true, true, .ran⟩
+/-- the same without the index on `alias` -/
+def exSch2 : Schema := { exSch with regAlias := false }
 /-- a reachable state: a (with child data) and b (plain) share role r -/
 def exState : State := run exSch [[.create .child [97] exA [116], .create .parent [98] exB []]]
 
 example : exState.base.uName.lookup [120] = some [97] ∧ exState.base.uName.lookup [121] = some [98] ∧
     exState.base.sRoles.lookup [114] = some [[97], [98]] ∧ exState.ext.lookup [97] = some [116] := by decide
-example : Inv exState := inv_reachable _ _
+example : Inv exSch exState := inv_reachable _ _
 /-- `WouldDuplicate` is satisfiable: b takes a's name, the patch naming the field by its caller-side name -/
 example : WouldDuplicate exSch exState (.update .parent [98] ⟨[120], none, []⟩ [] (some [[100]])) :=
-  ⟨[98], ⟨[120], none, [[114]]⟩, by decide, by decide, Or.inl ⟨[97], ⟨[120], some [121], [[114], [115]]⟩, by decide, by decide, rfl⟩⟩
+  ⟨[98], ⟨[120], none, [[114]]⟩, by decide,
+    Or.inl ⟨by decide, [97], ⟨[120], some [121], [[114], [115]]⟩, by decide, by decide, by decide⟩, by decide, by decide⟩
 example : (step exSch exState (.update .parent [98] ⟨[120], none, []⟩ [] (some [[100]]))).2 = .err .dup := by decide
 /-- … whereas the symbol name or the stored key in the checker selects nothing -/
 example : (step exSch exState (.update .parent [98] ⟨[120], none, []⟩ [] (some [[110], [107]]))).1.base.ents.lookup [98]
     = some ⟨[121], none, [[114]]⟩ := by decide
 /-- `WouldBeEmpty` is satisfiable, also for a child-store create over the existing plain parent b -/
-example : WouldBeEmpty exSch exState (.create .child [98] ⟨[], none, []⟩ [116]) := ⟨[98], ⟨[], none, []⟩, by decide, rfl⟩
+example : WouldBeEmpty exSch exState (.create .child [98] ⟨[], none, []⟩ [116]) :=
+  ⟨[98], ⟨[], none, []⟩, by decide, rfl, rfl, fun h => h.1 (by decide), by decide⟩
 example : (step exSch exState (.create .child [98] ⟨[], none, []⟩ [116])).2 = .err .nullNotAllowed := by decide
+/-- two faults at once: the registration order decides (roles before name: `other`; the plain order: `null`) -/
+example : (step exSch exState (.create .parent [99] ⟨[], none, [[]]⟩ [])).2 = .err .other ∧
+    (step { exSch with perm := .nar } exState (.create .parent [99] ⟨[], none, [[]]⟩ [])).2 = .err .nullNotAllowed := by decide
 /-- hand-over inside one transaction: a releases x (update through the parent store, delegated to
     the child store), b takes it -/
 example : ((txStep exSch exState [.update .parent [97] ⟨[122], none, []⟩ [] (some [[100]]),
@@ -161,6 +199,11 @@ example : (step exSch exState (.delete .child [97])).1.base.sRoles.lookup [114] 
 /-- a child-store create over the plain parent b replaces b's index entries -/
 example : (step exSch exState (.create .child [98] ⟨[122], none, [[115]]⟩ [116])).1.base.uName.lookup [121] = none ∧
     (step exSch exState (.create .child [98] ⟨[122], none, [[115]]⟩ [116])).1.base.sRoles.lookup [114] = some [[97]] := by decide
+/-- without the index on `alias` two entities may share an alias, and its bucket stays empty -/
+example : (run exSch2 [[.create .parent [97] exA [], .create .parent [98] ⟨[122], some [121], []⟩ []]]).base.uAlias = [] ∧
+    ((run exSch2 [[.create .parent [97] exA [], .create .parent [98] ⟨[122], some [121], []⟩ []]]).base.ents.lookup [98]).isSome = true := by decide
+/-- the index buckets of `exSch` sit below its three-element base path -/
+example : idxPath exSch exSch.name.sym = [[112], [113], [114], StorageModel.C03.bIndexes, StorageModel.C03.bThings, [110]] := by decide
 
 end StorageModel.Properties.C03
 
@@ -168,3 +211,4 @@ end StorageModel.Properties.C03
 #print axioms StorageModel.Properties.C03.step_refines_spec
 #print axioms StorageModel.Properties.C03.render_eq_spec
 #print axioms StorageModel.Properties.C03.dup_rejected
+#print axioms StorageModel.Properties.C03.index_paths_distinct
